@@ -53,7 +53,7 @@ def _strip_all(e):
                     else:
                         stmts.append(('let', st[1], st[2], init))
                 elif st[0] == 'expr': stmts.append(('expr', _strip_all(st[1])))
-                else: stmts.append(st if st[0] != 'item' else ('item', _item_digest(st[1])))
+                else: stmts.append(st if st[0] != 'item' or isinstance(st[1], tuple) else ('item', _item_digest(st[1])))
             tail = _strip_all(e[2]) if e[2] is not None else None
             # a block statement `unsafe { a; b; }` in statement position: splice its statements (no scoping effect on
             # values that are dropped at once; `let` inside keeps its block to stay sound)
@@ -183,11 +183,20 @@ def _neg(c):
 def _empty_block(b):
     return isinstance(b, tuple) and b and b[0] == 'block' and not b[1] and b[2] is None
 
+def _is_bool_lit(b, val):
+    b = strip(b) if isinstance(b, tuple) else b
+    return isinstance(b, tuple) and b and ((b[0] == 'lit' and b[1] == val) or (b[0] == 'path' and b[1] == [val]))
+
 def _norm_if(c, a, b):
     """`if !c {a} else {b}` = `if c {b} else {a}`;  `if c {} else {b}` = `if !c {b}`"""
     if b is not None and _empty_block(a): return _norm_if(_neg(c), b, None)
     if b is not None and _empty_block(b): b = None
     if b is not None and isinstance(c, tuple) and c and c[0] == 'unary' and c[1] == '!': return _norm_if(c[2], b, a)
+    # `if a { true } else { b }` is `a || b`, `if a { false } else { b }` is `!a && b` (the literal makes both bool)
+    if b is not None and _is_bool_lit(a, 'true'): return ('binary', '||', c, strip(b))
+    if b is not None and _is_bool_lit(a, 'false'): return ('binary', '&&', _neg(c), strip(b))
+    if b is not None and _is_bool_lit(b, 'false'): return ('binary', '&&', c, strip(a))
+    if b is not None and _is_bool_lit(b, 'true'): return ('binary', '||', _neg(c), strip(a))
     return ('if', c, a, b)
 
 def _result_match(e):
@@ -197,12 +206,16 @@ def _result_match(e):
     if len(arms) != 2 or any(len(a) < 3 or a[1] is not None for a in arms): return None
     pats = [a[0].strip() if isinstance(a[0], str) else '' for a in arms]
     mo = [re.match(r'^Ok\s*\(\s*([a-z_][A-Za-z0-9_]*)\s*\)$', p) for p in pats]
-    me = [re.match(r'^Err\s*\(\s*([a-z_][A-Za-z0-9_]*)\s*\)$', p) for p in pats]
+    me = [re.match(r'^Err\s*\(\s*([a-z_][A-Za-z0-9_]*)\s*\)$', p) for p in pats]   # `Err(_)` binds nothing: see the `ok` form
+    me = [m or (re.match(r'^Err\s*\(\s*(_)\s*\)$', p)) for m, p in zip(me, pats)]
     if mo[0] and me[1]: ok, err, x, y = arms[0], arms[1], mo[0].group(1), me[1].group(1)
     elif mo[1] and me[0]: ok, err, x, y = arms[1], arms[0], mo[1].group(1), me[0].group(1)
     else: return None
     okb = strip(ok[2]); errb = strip(err[2])
     def is_var(t, n): return isinstance(t, tuple) and t and t[0] == 'path' and t[1] == [n]
+    if isinstance(okb, tuple) and okb[0] == 'call' and okb[1][0] == 'path' and okb[1][1] == ['Some'] and len(okb[2]) == 1 and is_var(strip(okb[2][0]), x) \
+            and isinstance(errb, tuple) and errb[0] == 'path' and errb[1] == ['None'] and _count_raw(err[2], y) == 0:
+        return ('mcall', e[1], 'ok', [], [])
     if is_var(okb, x):
         return ('mcall', e[1], 'unwrap_or_else', [], [('closure', [y], err[2])])
     if isinstance(okb, tuple) and okb[0] == 'call' and okb[1][0] == 'path' and okb[1][1] == ['Ok'] and len(okb[2]) == 1 \
@@ -234,6 +247,18 @@ def _early_returns(e):
         i -= 1
     return ('block', stmts, tail)
 
+def _try_map(e):
+    """the whole body `Ok(F(E?))` is `E.map(F)` (same signature, hence the same error type: `?` converts nothing)"""
+    t = e[2] if isinstance(e, tuple) and e and e[0] == 'block' and not e[1] else e
+    t = strip(t) if isinstance(t, tuple) else t
+    if isinstance(t, tuple) and t and t[0] == 'call' and t[1][0] == 'path' and t[1][1] == ['Ok'] and len(t[2]) == 1:
+        inner = strip(t[2][0])
+        if isinstance(inner, tuple) and inner[0] == 'call' and inner[1][0] == 'path' and len(inner[2]) == 1:
+            q = strip(inner[2][0])
+            if isinstance(q, tuple) and q[0] == 'try':
+                return ('mcall', q[1], 'map', [], [inner[1]])
+    return e
+
 def _is_value_call(e):
     return isinstance(e, tuple) and e and e[0] in ('call', 'mcall')
 
@@ -258,8 +283,7 @@ def _rewrite(e, self_heads):
     if k == 'unary' and e[1] == '!' and _int_cmp(e[2]): return _neg(e[2])
     if k == 'mcall' and e[2] == 'add' and len(e[4]) == 1 and isinstance(e[4][0], tuple) and e[4][0][0] == 'lit':
         return ('mcall', e[1], 'offset', e[3], e[4])
-    if k == 'call' and e[1][0] == 'path' and len(e[1][1]) == 2 and e[1][1][0] in self_heads and e[2] \
-            and isinstance(e[2][0], tuple) and e[2][0][0] == 'path' and len(e[2][0][1]) == 1 and e[2][0][1][0][0].islower():
+    if k == 'call' and e[1][0] == 'path' and len(e[1][1]) == 2 and e[1][1][0] in self_heads and e[2] and isinstance(e[2][0], tuple):
         return ('mcall', e[2][0], e[1][1][1], [], list(e[2][1:]))
     if k == 'match':
         r = _result_match(e)
@@ -466,7 +490,8 @@ def inline_helpers(e, helpers, caller_types=None, depth=0):
                 if bound_args and (set(pnames[i] for i in bound_args) & argids): return e
                 for (pn, pty), a in zip(h['params'], e[2]):
                     a0 = strip(a)
-                    if caller_types is not None and a0[0] == 'path' and a0[1][0] in caller_types and caller_types[a0[1][0]] != pty: return e
+                    if caller_types is not None and a0[0] == 'path' and a0[1][0] in caller_types and caller_types[a0[1][0]] != pty \
+                            and not (caller_types[a0[1][0]].startswith('&mut') and '&' + caller_types[a0[1][0]][4:] == pty): return e
                 # simultaneous substitution of the place arguments
                 tmp = body
                 for i, pn in enumerate(pnames):
@@ -487,6 +512,21 @@ def canon(body_toks, params=(), self_heads=('Self',), helpers=None, caller_types
     e = parse_block_tokens(list(body_toks))
     return repr(_alpha(normalise(e, self_heads, helpers, caller_types), params))
 
+def normalise_light(e):
+    """wrappers, early returns, if / boolean normal form only (for the classifiers, which look at call forms)"""
+    e = _strip_all(e)
+    if isinstance(e, tuple) and e and e[0] != 'block': e = ('block', [], e)
+    e = _early_returns(e)
+    e = _rewrite_light(e)
+    return e
+
+def _rewrite_light(e):
+    if isinstance(e, list): return [_rewrite_light(x) for x in e]
+    if not isinstance(e, tuple) or not e: return e
+    e = tuple(_rewrite_light(x) for x in e)
+    if e[0] == 'if': return _norm_if(e[1], e[2], e[3])
+    return e
+
 def normalise(e, self_heads=('Self',), helpers=None, caller_types=None):
     """the canonical AST of a function body (before renaming)"""
     if helpers: e = inline_helpers(e, helpers, caller_types)
@@ -498,4 +538,5 @@ def normalise(e, self_heads=('Self',), helpers=None, caller_types=None):
     e = _strip_all(e)
     e = _rewrite(e, set(self_heads))
     e = _strip_all(e)
+    e = _try_map(e)
     return e
